@@ -42,16 +42,16 @@ func c04Alphabet() c04Alpha {
 		a.blocks[n] = refcar.Block{Cid: c, Data: d}
 	}
 	add("A", refcar.MakeCidV1(0x55, 0x12, sha(dA)), dA)
-	add("A'", refcar.MakeCidV1(0x70, 0x12, sha(dA)), dA)               // same multihash, other codec
-	add("B", refcar.MakeCidV1(0x55, 0x12, sha(dB)), dB)                 //
+	add("A'", refcar.MakeCidV1(0x70, 0x12, sha(dA)), dA)                                             // same multihash, other codec
+	add("B", refcar.MakeCidV1(0x55, 0x12, sha(dB)), dB)                                              //
 	add("C", refcar.MakeCidV1(0x55, 0x1e, sha(dB)), []byte("C: B's digest under another hash code")) // equal digest, other hash function (synthetic)
-	add("IA", refcar.MakeCidV1(0x55, 0x00, sha(dA)), sha(dA))           // identity CID whose digest is A's digest
+	add("IA", refcar.MakeCidV1(0x55, 0x00, sha(dA)), sha(dA))                                        // identity CID whose digest is A's digest
 	add("I", refcar.MakeCidV1(0x55, 0x00, []byte("hello")), []byte("hello"))
 	add("I0", refcar.MakeCidV1(0x55, 0x00, nil), nil)
 	dl := bytes.Repeat([]byte{0xAB}, 64)
-	add("L", refcar.MakeCidV1(0x55, 0x13, dl), []byte("L has a 68-byte CID"))   // over-long when MaxIndexCidSize is small
+	add("L", refcar.MakeCidV1(0x55, 0x13, dl), []byte("L has a 68-byte CID")) // over-long when MaxIndexCidSize is small
 	il := bytes.Repeat([]byte("i"), 60)
-	add("IL", refcar.MakeCidV1(0x55, 0x00, il), il)                     // over-long identity CID when MaxIndexCidSize is small
+	add("IL", refcar.MakeCidV1(0x55, 0x00, il), il) // over-long identity CID when MaxIndexCidSize is small
 	return a
 }
 
@@ -95,7 +95,7 @@ type c04Store interface {
 	Has(c []byte) (bool, error)
 	Get(c []byte) ([]byte, error)
 	GetSize(c []byte) (int, error) // storage: via GetStream
-	Keys() ([]string, error)      // blockstore only (nil,nil for storage)
+	Keys() ([]string, error)       // blockstore only (nil,nil for storage)
 	Roots() ([][]byte, error)
 	Finalize() error
 	FinalizeReadOnly() error
@@ -226,8 +226,8 @@ func notFound(err error) bool {
 type c04State int
 
 const (
-	stOpen c04State = iota
-	stReadOnly // finalized, still readable
+	stOpen     c04State = iota
+	stReadOnly          // finalized, still readable
 	stClosed
 )
 
@@ -579,12 +579,12 @@ func genC04(g *mon.G) {
 
 func init() {
 	Register(&mon.Check{
-		ID:    "C04",
-		Level: "exploration",
-		Rule: "EXHAUSTIVE: all histories of length ≤ 3 (quick) / ≤ 4 (thorough) over the op alphabet {Put of 9 designed blocks (A; A' same multihash other codec; B; C equal digest other hash code; IA identity twin of A's digest; I; I0 empty identity; L and IL over-long), 2 PutMany batches (one rejected midway), Finalize, FinalizeReadOnly, Close, Discard} x 10 (quick) / 14 (thorough) option configurations x {blockstore.ReadWrite, storage.StorageCar on a memfile}; plus random histories of length 10-60. After EVERY step: Has/Get/GetSize of all 9 keys, AllKeysChan, Roots and the payload bytes on file are compared with the executable model; after a terminal operation every operation is run once more (errors required, file frozen). A case = all histories sharing a first op; counters.histories counts individual histories",
+		ID:          "C04",
+		Level:       "exploration",
+		Rule:        "EXHAUSTIVE: all histories of length ≤ 3 (quick) / ≤ 4 (thorough) over the op alphabet {Put of 9 designed blocks (A; A' same multihash other codec; B; C equal digest other hash code; IA identity twin of A's digest; I; I0 empty identity; L and IL over-long), 2 PutMany batches (one rejected midway), Finalize, FinalizeReadOnly, Close, Discard} x 10 (quick) / 14 (thorough) option configurations x {blockstore.ReadWrite, storage.StorageCar on a memfile}; plus random histories of length 10-60. After EVERY step: Has/Get/GetSize of all 9 keys, AllKeysChan, Roots and the payload bytes on file are compared with the executable model; after a terminal operation every operation is run once more (errors required, file frozen). A case = all histories sharing a first op; counters.histories counts individual histories",
 		Assumptions: []string{"executable model lab.Model implements the documented admission rules; lookups are compared against the admissible set, listings as multisets", "identity lookups after close and Roots() after close are not judged; GetSize of an absent identity CID under StoreIdentityCIDs may answer the implied size or not-found"},
-		Gen:   genC04,
-		Run:   runC04,
-		MinCover: map[string]int{"histories": 5000, "put:stored": 1000, "put:skipped": 1000, "put:rejected": 100, "putmany:rejected-midway": 10, "finalize": 100, "finalize-readonly": 50, "discard": 50, "close": 20, "post-terminal-sweep": 100, "api:blockstore": 10, "api:storage": 10},
+		Gen:         genC04,
+		Run:         runC04,
+		MinCover:    map[string]int{"histories": 5000, "put:stored": 1000, "put:skipped": 1000, "put:rejected": 100, "putmany:rejected-midway": 10, "finalize": 100, "finalize-readonly": 50, "discard": 50, "close": 20, "post-terminal-sweep": 100, "api:blockstore": 10, "api:storage": 10},
 	})
 }
